@@ -46,8 +46,8 @@ PROPERTIES["C08"] = dict(
         "the broker's HashMap plumbing and the lexer/parser update that follows the text update",
     ],
     harnesses=[
-        H("document::__verif::c08_p1_q", Q, "get_insertion_index == LSP offset (UTF-16 columns, clamping)", "any valid UTF-8 text <= 4 bytes; line <= 5, character <= 6; unwind 6", timeout=600),
-        H("document::__verif::c08_p2_q", Q, "as_position == LSP position; get_insertion_index(as_position(i)) == i; out-of-range index clamps; as_pos_range", "any valid UTF-8 text <= 4 bytes; index <= 6; unwind 6", timeout=600),
+        H("document::__verif::c08_p1_q", Q, "get_insertion_index == LSP offset (UTF-16 columns, clamping)", "any valid UTF-8 text <= 5 bytes; line <= 6, character <= 7; unwind 7", timeout=900),
+        H("document::__verif::c08_p2_q", Q, "as_position == LSP position; get_insertion_index(as_position(i)) == i; out-of-range index clamps; as_pos_range", "any valid UTF-8 text <= 5 bytes; index <= 7; unwind 7", timeout=900),
         H("document::__verif::c08_p3_one_change_a", QT, "one symbolic content change (ranged or range-less): fold(to_text_changes) == LSP reference; no panic", "concrete text 'a<U+1F600>LF b' (7 B); kind, positions <= (3,5) incl. overshoot, inserted string in {'', x, LF, U+1F600} symbolic; unwind 14", timeout=1500, mem_gb=24),
         H("document::__verif::c08_p3_one_change_b", QT, "same", "concrete text '<e-acute>CRLF x LF' (6 B)", timeout=1500, mem_gb=24),
         H("document::__verif::c08_p3_one_change_c", QT, "same", "empty document", timeout=1500, mem_gb=24),
@@ -61,13 +61,13 @@ PROPERTIES["C08"] = dict(
 PROPERTIES["C14"] = dict(
     crate_dir="lsp4spl",
     attach={"signature_help.rs": "lsp4spl/src/features/signature_help.rs"},
-    functions={"lsp4spl/src/features/signature_help.rs": ["get_active_param", "find_call_stmt_in_stmt"]},
+    functions={"lsp4spl/src/features/signature_help.rs": ["get_active_param", "find_call_stmt", "find_call_stmt_in_stmt"]},
     explanation=(
         "The real signature_help::get_active_param is executed symbolically on the token slice of a call statement "
         "(adjacent tokens of symbolic kind, symbolic cursor offset from before the first token to past the last); CBMC "
         "decides that the active parameter is the number of commas that start before the cursor when the callee has "
-        "parameters and None when it has none. The real find_call_stmt_in_stmt is executed on statement trees "
-        "{ if (..) call } and { while (..) call } with symbolic Reference offsets, call length and cursor: the call is "
+        "parameters and None when it has none. The real find_call_stmt / find_call_stmt_in_stmt are executed on a procedure "
+        "whose body is if/while/else/block around a call, with symbolic procedure, statement and call offsets, call length and cursor: the call is "
         "returned iff the cursor lies inside it, together with the accumulated offset of its Reference chain. "
         "Only these two clauses of C14 are decided."),
     assumptions=[
@@ -79,8 +79,10 @@ PROPERTIES["C14"] = dict(
     harnesses=[
         H("features::signature_help::__verif::c14_active_q", Q, "active parameter == #commas before cursor; None without parameters", "4 tokens of symbolic kind, cursor <= 6", timeout=600),
         H("features::signature_help::__verif::c14_active_t", T, "same", "7 tokens with symbolic gaps/widths, cursor anywhere", timeout=1800),
-        H("features::signature_help::__verif::c14_enclosing_call_if", QT, "find_call_stmt_in_stmt: call nested in block/if is found iff the cursor is inside it, with the accumulated Reference offset", "tree { if (..) call }, symbolic base/Reference offsets (<=2), call length 1..2, cursor; 7 adjacent one-byte tokens", timeout=900, mem_gb=24),
-        H("features::signature_help::__verif::c14_enclosing_call_while", QT, "same for { while (..) call }", "symbolic offsets, call length, cursor", timeout=900, mem_gb=24),
+        H("features::signature_help::__verif::c14_enclosing_call_if", QT, "find_call_stmt_in_stmt: the call nested in `{ if (..) call }` is found iff the cursor is inside it, with the accumulated Reference offset", "block with one statement; symbolic base/statement/call offsets (<=2), call length 1..2, cursor; 7 adjacent one-byte tokens", timeout=1200, mem_gb=24),
+        H("features::signature_help::__verif::c14_enclosing_call_while", QT, "find_call_stmt_in_stmt: the call nested in `{ while (..) call }` is found iff the cursor is inside it, with the accumulated Reference offset", "block with one statement; symbolic base/statement/call offsets (<=2), call length 1..2, cursor; 7 adjacent one-byte tokens", timeout=1200, mem_gb=24),
+        H("features::signature_help::__verif::c14_enclosing_call_else", QT, "find_call_stmt_in_stmt: the call nested in `{ if (..) ; else call }` is found iff the cursor is inside it, with the accumulated Reference offset", "block with one statement; symbolic base/statement/call offsets (<=2), call length 1..2, cursor; 7 adjacent one-byte tokens", timeout=1200, mem_gb=24),
+        H("features::signature_help::__verif::c14_enclosing_call_proc", QT, "find_call_stmt: a call in the body of a procedure that starts at a symbolic token offset is found iff the cursor is inside it, with the absolute offset", "procedure with one call statement; symbolic procedure and statement offsets (<=3), call length 1..2, cursor", timeout=1200, mem_gb=24),
         H("features::signature_help::__verif::c14_twin_must_fail", QT, "vacuity twin", "", expect="fail", timeout=600),
     ],
 )
@@ -169,7 +171,7 @@ PROPERTIES["C01"] = dict(
     outside=["more old tokens / inserted tokens than the bound", "real AST node parsers and their look-ahead", "many(), parse_list(), handle_insertions (list resynchronisation)", "lexer::update", "table::build / analyze"],
     harnesses=[
         H("tokens::__verif::c01_a1_new_token_pos", QT, "new index of surviving tokens; no over/underflow", "all usize values up to 2^32", timeout=600),
-        H("tokens::__verif::c01_a1_out_of_range", QT, "p >= ds+ins => out_of_range(p) (the direction reuse soundness needs); total", "all usize values up to 2^32", timeout=600),
+        H("tokens::__verif::c01_a1_out_of_range", QT, "p > ds+ins => out_of_range(p) (the direction and region reuse soundness needs); total", "all usize values up to 2^32", timeout=600),
         H("tokens::__verif::c01_a1_deletes_overlaps", QT, "a deleted token inside R, or tokens inserted strictly inside R => overlaps(R) (the direction reuse soundness needs); deletes total", "all usize values up to 2^32", timeout=600),
         H("tokens::__verif::c01_a1_twin_must_fail", QT, "vacuity twin", "", expect="fail", timeout=600),
         H("parser::utility::__verif::c01_a2_q", Q, "affected(): reuse => same as parse from scratch", "4 old tokens + Eof of symbolic kind, any window, <=2 inserted tokens, any old ';'-run node, any reachable position; unwind 8", timeout=1200, mem_gb=20),
